@@ -11,13 +11,15 @@
                                                asks to stream its body (http: request.stream / response.stream), so
                                                head and body travel on before the message hook and only the end of
                                                the message (trailers, last-chunk, END_STREAM) is left to withhold
+                                               optional body (default TRUE): FALSE = the message has a head only
      [k |-> "hook", n, f, d, ok]               the message's hook runs; the addon's decision d is "pass", "intercept"
                                                (flow.intercept()) or "kill" (flow.kill() if killable: ok)
      [k |-> "release", n, f]                   handle_hook returned for that hook (the waiter in wait_for_resume is
                                                through); the layer continues
      [k |-> "resume", f]                       user: flow.resume()
      [k |-> "kill", f, ok]                     user: flow.kill() if flow.killable (ok)
-     [k |-> "edit", n, f, id]                  user: the held message n now has content id
+     [k |-> "edit", n, f, id, body]            user: the held message n now has content id; body (default TRUE):
+                                               whether it has a body after the edit
      [k |-> "run"]                             environment: the event loop runs until nothing is runnable
      [k |-> "write", to, hd, bd, fin]          the proxy wrote to peer to; hd / bd = content ids found (by the peer's own
                                                decoder) in message heads / bodies, fin = messages n whose clean end it
@@ -44,6 +46,8 @@ MonInit == [bad |-> <<>>, wit |-> {},
             resumed |-> {},      \* n held by an intercepted flow that has been resumed; the event loop has not run yet
             fw |-> {},           \* n whose body has been written to its destination
             fins |-> {},         \* n whose clean end has been written to its destination
+            hw |-> {},           \* n whose head has been written to its destination
+            nobody |-> {},       \* n whose current content is a head without body
             streamed |-> {},     \* n that are streamed
             cur |-> {},          \* <<n, id>>: current content of n
             icpt |-> {},         \* flows that are intercepted now
@@ -62,6 +66,9 @@ Carried(m, ev) == {n \in Nums(m) : ToOf(m, n) = ev.to /\ \E i \in DOMAIN (ev.hd 
                                                              Base((ev.hd \o ev.bd \o Fin(ev))[i]) = n}
 Ended(m, ev) == {n \in Nums(m) : ToOf(m, n) = ev.to /\ \E i \in DOMAIN Fin(ev) : Fin(ev)[i] = n}
 BodyCount(ev, n) == Cardinality({i \in DOMAIN ev.bd : Base(ev.bd[i]) = n})
+HeadCount(ev, n) == Cardinality({i \in DOMAIN ev.hd : Base(ev.hd[i]) = n})
+\* message n, in its current form, is at its destination
+Delivered(m, n) == IF n \in m.streamed THEN n \in m.fins ELSE IF n \in m.nobody THEN n \in m.hw ELSE n \in m.fw
 
 OnWrite(m, ev) ==
   LET ns == Carried(m, ev) IN
@@ -74,14 +81,15 @@ OnWrite(m, ev) ==
               IF ev.to = "s" THEN "to_server" ELSE "to_client">>
   ELSE IF \E n \in ns : BodyCount(ev, n) > 1 \/ (BodyCount(ev, n) = 1 /\ n \in m.fw)
     THEN <<"C11.forwarded_twice", m.proto>>
-  ELSE IF \E n \in ns : \E i \in DOMAIN (ev.hd \o ev.bd) :
-            Base((ev.hd \o ev.bd)[i]) = n /\ (ev.hd \o ev.bd)[i] # CurOf(m, n)
+  ELSE IF \E n \in ns : (\E i \in DOMAIN (ev.hd \o ev.bd) :
+                              Base((ev.hd \o ev.bd)[i]) = n /\ (ev.hd \o ev.bd)[i] # CurOf(m, n))
+                          \/ (n \in m.nobody /\ BodyCount(ev, n) > 0)     \* a body the message no longer has
     THEN <<"C11.forwarded_stale_content", m.proto>>
   ELSE <<>>
 
 \* evaluated in the state before an environment event: what the proxy could do synchronously has been done
 Check(m) ==
-  IF \E n \in m.mustfw : IF n \in m.streamed THEN n \notin m.fins ELSE n \notin m.fw THEN <<"C11.released_or_resumed_but_not_forwarded", m.proto>>
+  IF \E n \in m.mustfw : ~Delivered(m, n) THEN <<"C11.released_or_resumed_but_not_forwarded", m.proto>>
   ELSE IF Multiplexed(m.proto)
           /\ \E t \in m.arrived : /\ t[1] \notin m.hooked /\ t[2] \notin m.killed /\ t[2] \notin m.icpt
                                   /\ ~\E n \in Pending(m) : FlowOf(m, n) = t[2]
@@ -97,7 +105,7 @@ Clause(m, ev) ==
            THEN <<"C11.killed_without_error", m.proto>> ELSE <<>>
     [] ev.k = "hook" ->
          \* what the hook can still withhold has already left: the body, or the end of a streamed message
-         IF ev.d = "intercept" /\ (IF ev.n \in m.streamed THEN ev.n \in m.fins ELSE ev.n \in m.fw)
+         IF ev.d = "intercept" /\ Delivered(m, ev.n)
            THEN <<"C11.sent_while_held", m.proto>> ELSE <<>>
     [] ev.k = "write" -> OnWrite(m, ev)
     [] ev.k = "raised" -> <<"C11.proxy_crashed", m.proto>>
@@ -112,6 +120,7 @@ MonStep(m, ev) ==
     [] ev.k = "arrive" ->
          [m1 EXCEPT !.arrived = @ \cup {<<ev.n, ev.f, ev.to>>}, !.cur = @ \cup {<<ev.n, ev.n>>},
                     !.streamed = IF Get(ev, "str", FALSE) THEN @ \cup {ev.n} ELSE @,
+                    !.nobody = IF Get(ev, "body", TRUE) THEN @ ELSE @ \cup {ev.n},
                     !.mustfw = @ \cup m.resumed, !.resumed = {},      \* delivering a message runs the event loop too
                     !.wit = @ \cup W(m.icpt # {} /\ ev.f \notin m.icpt, T(m, "sibling_arrives_while_other_held"))
                               \cup W(ev.f \in m.icpt, T(m, "arrives_while_own_flow_held"))
@@ -147,11 +156,15 @@ MonStep(m, ev) ==
                                           T(m, "killed_after_resume_before_release"))
                                    \cup W(~\E n \in Pending(m) : FlowOf(m, n) = ev.f, T(m, "killed_between_messages"))]
     [] ev.k = "edit" -> [m1 EXCEPT !.cur = {t \in @ : t[1] # ev.n} \cup {<<ev.n, ev.id>>},
-                                   !.wit = @ \cup {T(m, "edited")}]
+                                   !.nobody = IF Get(ev, "body", TRUE) THEN @ \ {ev.n} ELSE @ \cup {ev.n},
+                                   !.wit = @ \cup {T(m, "edited")}
+                                             \cup W(Get(ev, "body", TRUE) /\ ev.n \in m.nobody, T(m, "edit_adds_body"))
+                                             \cup W(~Get(ev, "body", TRUE) /\ ev.n \notin m.nobody, T(m, "edit_removes_body"))]
     [] ev.k = "write" ->
          LET ns == Carried(m, ev) IN
          [m1 EXCEPT !.fw = @ \cup {n \in ns : BodyCount(ev, n) > 0},
                     !.fins = @ \cup Ended(m, ev),
+                    !.hw = @ \cup {n \in ns : HeadCount(ev, n) > 0},
                     !.wit = @ \cup W(\E n \in Ended(m, ev) : n \in m.streamed /\ n \in m.released, T(m, "streamed_end_after_release"))
                               \cup W(ns # {}, T(m, "forwarded"))
                               \cup W(\E n \in ns : CurOf(m, n) # n, T(m, "edited_forwarded"))]
